@@ -221,36 +221,59 @@ def insert_mapping_probes(rep):
 
 
 def insert_probes(rep):
-    """NOT NULL / PRIMARY KEY columns must reject NULL, and a stored value is never silently replaced (NULL by 0)."""
+    """NOT NULL / PRIMARY KEY columns must reject NULL, and a stored value is never silently replaced (NULL by 0).
+    Every way of declaring the constraint (column-level NOT NULL, column-level PRIMARY KEY, table-level PRIMARY KEY (..),
+    single and composite) is crossed with every way of producing a NULL for the column (explicit NULL, column omitted from
+    the column list, NULL coming from a SELECT)."""
     import shutil
     from vlib.common import scratch_dir
+    decls = [('column-level', 'create table t(a int not null, b int primary key, c int)', ('a', 'b')),
+             ('table-level-single', 'create table t(a int, b int, c int, primary key(a))', ('a',)),
+             ('table-level-second-column', 'create table t(a int, b int, c int, primary key(b))', ('b',)),
+             ('table-level-composite', 'create table t(a int, b int, c int, primary key(a, b))', ('a', 'b')),
+             ('table-level-with-not-null', 'create table t(a int not null, b int, c int, primary key(b))', ('a', 'b'))]
     for eng in ('mem', 'disk'):
-        d = scratch_dir('c16') if eng == 'disk' else None
-        stmts = ['create table t(a int not null, b int primary key, c int)', 'insert into t values (NULL, 1, 1)', 'insert into t values (2, NULL, 2)', 'insert into t(c) values (3)',
-                 'select a, b, c from t order by c']
-        inp = {'engine': eng, 'stmts': stmts}
-        if d:
-            inp.update(dir=d, block=4096, rowset=1 << 20)
-        out, rc, err = rl('sql', inp)
-        if d:
-            shutil.rmtree(d, ignore_errors=True)
-        res = {o['sql']: o for o in out if 'sql' in o}
-        sel = res.get(stmts[-1])
-        if sel is None or not sel.get('ok'):
-            rep.fail_inconclusive('insert probe did not run on %s: %s' % (eng, err[-200:]))
-            continue
-        accepted = [s for s in stmts[1:4] if res.get(s, {}).get('ok')]
-        rows = sel['rows']
-        rep.cov['programs'] += 1
-        if not accepted:
-            rep.obligation(True)
-            continue
-        stored_null = any(r[0] is None or r[1] is None for r in rows)
-        replaced = any((r[2] == '1' and r[0] is not None) or (r[2] == '2' and r[1] is not None) for r in rows)
-        key = 'insert:not-null:%s:%s' % (eng, 'null-replaced-by-a-value' if replaced else 'null-stored')
-        what = 'INSERT of NULL into NOT NULL / PRIMARY KEY columns is accepted on the %s engine (%d of 3 statements); table then holds %s' % (eng, len(accepted), json.dumps(rows))
-        out_c = rep.counterexample(key, what[:500], {'stmts': stmts, 'rows': rows, 'accepted': accepted}, True)
-        rep.obligation(out_c == 'known')
+        for dname, ddl, nn in decls:
+            d = scratch_dir('c16') if eng == 'disk' else None
+            tries = []
+            k = 0
+            for col in nn:
+                others = [c for c in 'abc' if c != col]
+                k += 1
+                tries.append('insert into t values (%s)' % ', '.join('NULL' if c == col else str(10 * k) for c in 'abc'))
+                k += 1
+                tries.append('insert into t(%s) values (%s)' % (', '.join(others), ', '.join(str(10 * k) for _ in others)))
+                k += 1
+                tries.append('insert into t select %s from src' % ', '.join('n' if c == col else 'v + %d' % (10 * k) for c in 'abc'))
+            stmts = [ddl, 'create table src(v int, n int)', 'insert into src values (0, NULL)'] + tries + ['insert into t values (1, 2, 3)', 'select a, b, c from t']
+            inp = {'engine': eng, 'stmts': stmts}
+            if d:
+                inp.update(dir=d, block=4096, rowset=1 << 20)
+            out, rc, err = rl('sql', inp)
+            if d:
+                shutil.rmtree(d, ignore_errors=True)
+            res = {o['sql']: o for o in out if 'sql' in o}
+            sel = res.get(stmts[-1])
+            if sel is None or not sel.get('ok'):
+                rep.fail_inconclusive('insert probe (%s) did not run on %s: %s' % (dname, eng, err[-200:]))
+                continue
+            accepted = [s_ for s_ in tries if res.get(s_, {}).get('ok')]
+            rows = sel['rows']
+            idx = {'a': 0, 'b': 1, 'c': 2}
+            rep.cov['programs'] += 1
+            stored_null = any(r[idx[c]] is None for r in rows for c in nn)
+            if not accepted and not stored_null and ['1', '2', '3'] in rows:
+                rep.obligation(True)
+                continue
+            if not accepted and not stored_null:
+                rep.obligation(False)
+                rep.fail_inconclusive('insert probe (%s, %s): the control row is missing: %s' % (dname, eng, json.dumps(rows)))
+                continue
+            key = 'insert:not-null:%s:%s:%s' % (eng, dname, 'null-stored' if stored_null else 'null-replaced-by-a-value')
+            what = 'INSERT producing NULL for a NOT NULL / PRIMARY KEY column is accepted on the %s engine with %s (%d of %d statements, first: %s); table then holds %s' % (
+                eng, ddl, len(accepted), len(tries), accepted[0] if accepted else '-', json.dumps(rows))
+            out_c = rep.counterexample(key, what[:600], {'stmts': stmts, 'rows': rows, 'accepted': accepted}, True)
+            rep.obligation(out_c == 'known')
 
 
 def replay_cmd(path):
